@@ -121,7 +121,8 @@ type scenario struct {
 	ncmds  int
 	faults []string
 	// when the leader changes: after this many commands; promote = the follower takes over, else A restarts itself
-	switchAt int
+	switchAt  int
+	memLeader bool // instance A uses the memory cache
 }
 
 func runScenario(sc *scenario, tr *hx.Trace, work string, r *hx.Rng) {
@@ -161,6 +162,15 @@ func runScenario(sc *scenario, tr *hx.Trace, work string, r *hx.Rng) {
 	}
 	mk := func(name string) syncer.SyncerConfig {
 		dir := filepath.Join(work, fmt.Sprintf("h%d%s", sc.id, name))
+		if name == "A" && sc.memLeader {
+			// the first leader caches in memory (the follower that takes over keeps its copy on disk)
+			return syncer.SyncerConfig{
+				Input:          config.RedisConfig{Addresses: []string{src.Ln.Addr().String()}, Type: config.RedisTypeStandalone, Otype: config.RedisTypeStandalone},
+				Output:         config.RedisConfig{Addresses: []string{tgt.Addr()}, Type: config.RedisTypeStandalone, Otype: config.RedisTypeStandalone, Version: "7.0.0"},
+				Channel:        config.ChannelConfig{Type: config.ChannelTypeMemory, Memory: &config.MemoryConfig{MaxSize: 1 << 30, LogSize: 4096}},
+				CanTransaction: sc.txn,
+			}
+		}
 		return syncer.SyncerConfig{
 			Input:  config.RedisConfig{Addresses: []string{src.Ln.Addr().String()}, Type: config.RedisTypeStandalone, Otype: config.RedisTypeStandalone},
 			Output: config.RedisConfig{Addresses: []string{tgt.Addr()}, Type: config.RedisTypeStandalone, Otype: config.RedisTypeStandalone, Version: "7.0.0"},
@@ -206,6 +216,24 @@ func runScenario(sc *scenario, tr *hx.Trace, work string, r *hx.Rng) {
 			src.Id2, src.Second, src.Id1 = src.Id1, src.M()+1, "B"
 			src.Mu.Unlock()
 			src.DropNow()
+		case "pause":
+			// the operator pauses the leader (http api), the master goes on writing, the leader is resumed: a stop and a new
+			// start of input and output inside the same syncer object, on the cache it has kept
+			a.mu.Lock()
+			sy := a.sy
+			a.mu.Unlock()
+			if sy != nil && sy.State() == syncer.SyncerStateRun {
+				paused := make(chan struct{})
+				go func() { sy.Pause(); close(paused) }()
+				select {
+				case <-paused:
+				case <-time.After(40 * time.Second):
+					hx.Fatal("scenario %d: Pause did not return", sc.id)
+				}
+				emit(1 + r.Intn(4))
+				time.Sleep(time.Duration(r.Intn(30)) * time.Millisecond)
+				sy.Resume()
+			}
 		case "losebacklog":
 			src.Mu.Lock()
 			src.Bl = src.M() + 2
@@ -339,7 +367,7 @@ func runScenario(sc *scenario, tr *hx.Trace, work string, r *hx.Rng) {
 	if obs == nil {
 		obs = []fakesrc.PsyncObs{}
 	}
-	tr.Emit(map[string]interface{}{"ev": "E2E", "id": sc.id, "txn": sc.txn, "disk": true, "faults": append([]string{"handover"}, sc.faults...), "ncmds": ncmds,
+	tr.Emit(map[string]interface{}{"ev": "E2E", "id": sc.id, "txn": sc.txn, "disk": !sc.memLeader, "faults": append([]string{"handover"}, sc.faults...), "ncmds": ncmds,
 		"initial": ninit, "total": total, "lists": proj, "complete": ok, "ended": false, "restarts": a.restarts + b2.restarts, "err": "", "psync": obs, "base": base,
 		"followerRange": []int64{fl, fr}, "psyncBeforeHandover": obsBefore, "cpAtHandover": cpAt})
 }
@@ -380,7 +408,7 @@ func main() {
 	wd := hx.NewWatchdog(240 * time.Second)
 	nScen := 0
 	kinds := map[string]int{}
-	pool := []string{"drop", "failover", "losebacklog"}
+	pool := []string{"drop", "failover", "losebacklog", "pause", "pause"}
 	for s := 0; s < *n; s++ {
 		if s%*shards != *shard {
 			continue
@@ -388,7 +416,8 @@ func main() {
 		r := hx.NewRng(*seed*49979687 + uint64(s))
 		sc := &scenario{id: 7000000 + s + 1, txn: r.Bool(), nkeys: 1 + r.Intn(3), ncmds: 8 + r.Intn(16)}
 		sc.switchAt = 2 + r.Intn(sc.ncmds-4)
-		for f := 0; f < r.Intn(2); f++ {
+		sc.memLeader = r.Chance(30)
+		for f := 0; f < r.Intn(3); f++ {
 			sc.faults = append(sc.faults, pool[r.Intn(len(pool))])
 		}
 		wd.Kick(fmt.Sprintf("ha scenario %d %v", sc.id, sc.faults))
